@@ -101,4 +101,35 @@ VConsistent(v) == /\ v.mut = "wrongValue" => v.hasValue
                   /\ v.sib # "other" => v.hasValue
 \* content equals the expansion up to sibling order <=> nothing but order was changed
 AcceptExpand(v) == v.mut = "none"
+
+----------------------------------------------------------------------------
+\* Part 4: a dictionary is built by adding declarations one after the other - from annotation strings, or from the entries of
+\* other dictionaries when dictionaries are merged (DefinitionDict([d1, d2]), add_definitions, HedValidator(def_dicts=[...])).
+\* Names are compared case-insensitively (here: names are already folded).  "A duplicate name is reported and ignored":
+\* the FIRST declaration of a name wins, whatever way the later one arrives.
+DNames == {"na", "nb"}
+DContents == {"c1", "c2"}
+Decl == [name : DNames, content : DContents]
+Sources == UNION {[1..k -> Decl] : k \in 0..2}             \* a source: up to two declarations, in order
+RECURSIVE AddAll(_, _)
+AddAll(d, src) == IF src = <<>> THEN d
+                  ELSE LET x == Head(src) IN
+                       AddAll(IF \E e \in d.entries : e.name = x.name
+                              THEN [d EXCEPT !.dups = @ + 1]
+                              ELSE [d EXCEPT !.entries = @ \cup {x}], Tail(src))
+EmptyDict == [entries |-> {}, dups |-> 0]
+\* a source gathered by itself is a dictionary (its own duplicates already dropped), merging adds its ENTRIES in order
+Own(src) == AddAll(EmptyDict, src)
+RECURSIVE FirstOf(_, _)
+FirstOf(src, nm) == IF Head(src).name = nm THEN Head(src) ELSE FirstOf(Tail(src), nm)
+EntriesInOrder(src) == LET d == Own(src) IN
+                       [k \in 1..Cardinality(d.entries) |->
+                          CHOOSE e \in d.entries : Cardinality({f \in d.entries :
+                               (CHOOSE i \in 1..Len(src) : src[i] = FirstOf(src, f.name)) <
+                               (CHOOSE i \in 1..Len(src) : src[i] = FirstOf(src, e.name))}) = k - 1]
+Merged(s1, s2) == AddAll(Own(s1), EntriesInOrder(s2))
+MergeCases == {[s1 |-> a, s2 |-> b, entries |-> Merged(a, b).entries, newdups |-> Merged(a, b).dups - Own(a).dups] :
+                  a \in Sources, b \in Sources}
+\* the first declaration wins
+FirstWins == \A a, b \in Sources : \A e \in Own(a).entries : e \in Merged(a, b).entries
 =============================================================================
